@@ -225,6 +225,49 @@ def lasso_nfa_def(rng, sigma, tail=None, period=None, unroll=1, extra_nondet=Fal
                 final_states=finals), (t, p, fin_tail, fin_cyc)
 
 
+def coprime_cycles_pair(rng):
+    """(A, B, tag) over {a}: A guesses between a cycle of length p and one of length q (accepts a^n iff p | n or q | n),
+    B is the single cycle of length lcm(p, q) with the same language, or with one flag flipped somewhere on it."""
+    import math
+    p, q = rng.choice([(2, 3), (3, 4), (2, 5), (3, 5), (4, 5), (2, 7), (3, 7), (4, 6), (2, 4)])
+    A = [("A", i) for i in range(p)]
+    B = [("B", i) for i in range(q)]
+    trans = {"s": {"a": {A[1 % p], B[1 % q]}}}
+    for i in range(p):
+        trans[A[i]] = {"a": {A[(i + 1) % p]}}
+    for i in range(q):
+        trans[B[i]] = {"a": {B[(i + 1) % q]}}
+    a = dict(states={"s"} | set(A) | set(B), input_symbols={"a"}, transitions=trans, initial_state="s",
+             final_states={"s", A[0], B[0]})
+    n = p * q // math.gcd(p, q)
+    fin = {i for i in range(n) if i % p == 0 or i % q == 0}
+    tag = "coprime_cycles_equal"
+    if rng.random() < 0.65:
+        fin ^= {rng.randrange(n)}
+        tag = "coprime_cycles_one_flag"
+    b = dict(states=set(range(n)), input_symbols={"a"}, transitions={i: {"a": {(i + 1) % n}} for i in range(n)},
+             initial_state=0, final_states=fin)
+    return (a, b, tag) if rng.random() < 0.5 else (b, a, tag)
+
+
+def prefix_agreeing_lassos(rng):
+    """(A, B, tag) over {a}: A is a random lasso; B is a lasso of another shape whose flags are A's verdicts on the first
+    |B| lengths, so the two languages agree on every word shorter than |B| and (usually) differ on a longer one."""
+    t, p = rng.randint(0, 3), rng.randint(2, 5)
+    fa = [rng.random() < 0.5 for _ in range(t + p)]
+    acc_a = lambda n: fa[n] if n < t + p else fa[t + (n - t) % p]      # noqa: E731
+    t2, p2 = rng.randint(0, 3), rng.choice([x for x in range(1, 6) if x != p])
+    n2 = t2 + p2
+
+    def lasso(n, t0, flags):
+        return dict(states=set(range(n)), input_symbols={"a"},
+                    transitions={i: {"a": {i + 1 if i + 1 < n else t0}} for i in range(n)}, initial_state=0,
+                    final_states={i for i in range(n) if flags[i]})
+    a = lasso(t + p, t, fa)
+    b = lasso(n2, t2, [acc_a(i) for i in range(n2)])
+    return (a, b, "lasso_prefix_agreeing") if rng.random() < 0.5 else (b, a, "lasso_prefix_agreeing")
+
+
 def lasso_pair(rng, sigma):
     """(A, B, tag): same skeleton with different unrolling (equivalent), or one cycle flag changed, or
     independent lassos (period 2 vs 3 etc.)."""
